@@ -452,6 +452,393 @@ def rule_headerpred(ctx):
                 "the byte of every profile of that kind is decoded wrongly" % (idx, b40, b41, got, want, len(bad), rows), fn=f)
 
 
+def _icc_reference(stream, check_size=True):
+    """the ICC stream interpreter of ISO/IEC 18181-1 (ICC annex), written from the format; returns ("ok", bytes) or ("err",)"""
+    class Bad(Exception):
+        pass
+
+    def varint(buf, pos):
+        v, sh = 0, 0
+        while sh < 63:
+            if pos >= len(buf):
+                raise Bad()
+            b = buf[pos]
+            pos += 1
+            v |= (b & 0x7f) << sh
+            if not b & 0x80:
+                break
+            sh += 7
+        return v, pos
+
+    def shuffle(bs, width):
+        n = len(bs)
+        height = -(-n // width)
+        full = n - (height - 1) * width if n else 0
+        rows, o = [], 0
+        for r in range(width):
+            ln = height if r < full else height - 1
+            rows.append(bs[o:o + ln])
+            o += ln
+        return [row[c_] for c_ in range(height) for row in rows if c_ < len(row)]
+
+    TAGS = [b"rTRC", b"rXYZ", b"cprt", b"wtpt", b"bkpt", b"rXYZ", b"gXYZ", b"bXYZ", b"kXYZ", b"rTRC", b"gTRC", b"bTRC", b"kTRC", b"chad", b"desc",
+            b"chrm", b"dmnd", b"dmdd", b"lumi"]
+    DATA = [b"XYZ ", b"desc", b"text", b"mluc", b"para", b"curv", b"sf32", b"gbd "]
+    be = lambda v: [(v >> 24) & 255, (v >> 16) & 255, (v >> 8) & 255, v & 255]
+    try:
+        osize, pos = varint(stream, 0)
+        csize, pos = varint(stream, pos)
+        if pos + csize > len(stream) or osize > 1 << 28:
+            raise Bad()
+        cmds, data = list(stream[pos:pos + csize]), list(stream[pos + csize:])
+        hs = min(osize, 128)
+        if len(data) < hs:
+            raise Bad()
+        resid, data = data[:hs], data[hs:]
+        init = [0] * 128
+        init[8] = 4
+        init[12:24] = list(b"mntrRGB XYZ ")
+        init[36:40] = list(b"acsp")
+        init[70], init[71], init[73], init[78], init[79] = 246, 214, 1, 211, 45
+        out = []
+        for i in range(hs):
+            pred = list(init)
+            pred[0:4] = be(osize & 0xffffffff)
+            if True:
+                d40 = out[40] if len(out) > 40 else None
+                d41 = out[41] if len(out) > 41 else None
+                if d40 == ord("A"):
+                    pred[41:44] = list(b"PPL")
+                if d40 == ord("M"):
+                    pred[41:44] = list(b"SFT")
+                if d40 == ord("S") and d41 == ord("G"):
+                    pred[42:44] = list(b"I ")
+                if d40 == ord("S") and d41 == ord("U"):
+                    pred[42:44] = list(b"NW")
+            if 80 <= i < 84:
+                pred[i] = out[4 + i - 80]
+            out.append((pred[i] + resid[i]) & 255)
+        if osize <= 128:
+            return ("ok", out)
+        cp = 0
+        v, cp = varint(cmds, cp)
+        if v:
+            nt = v - 1
+            if (osize - 128) // 12 < nt:
+                raise Bad()
+            out += be(nt)
+            pstart, psize = nt * 12 + 128, 0
+            while True:
+                if cp >= len(cmds):
+                    break                       # the command stream may end inside the tag list
+                c = cmds[cp]
+                cp += 1
+                code = c & 63
+                if code == 0:
+                    break
+                if code == 1:
+                    if len(data) < 4:
+                        raise Bad()
+                    tag, data = bytes(data[:4]), data[4:]
+                elif code <= 20:
+                    tag = TAGS[code - 2]
+                else:
+                    raise Bad()
+                if c & 64:
+                    start, cp = varint(cmds, cp)
+                    start &= 0xffffffff
+                else:
+                    start = (pstart + psize) & 0xffffffff
+                if c & 128:
+                    size, cp = varint(cmds, cp)
+                    size &= 0xffffffff
+                elif tag in (b"rXYZ", b"gXYZ", b"bXYZ", b"kXYZ", b"wtpt", b"bkpt", b"lumi"):
+                    size = 20
+                else:
+                    size = psize
+                if start + size > osize:
+                    raise Bad()
+                pstart, psize = start, size
+                out += list(tag) + be(start) + be(size)
+                if code == 2:
+                    out += list(b"gTRC") + be(start) + be(size) + list(b"bTRC") + be(start) + be(size)
+                elif code == 3:
+                    out += list(b"gXYZ") + be((start + size) & 0xffffffff) + be(size) + list(b"bXYZ") + be((start + 2 * size) & 0xffffffff) + be(size)
+        while cp < len(cmds):
+            c = cmds[cp]
+            cp += 1
+            if c in (1, 2, 3):
+                n, cp = varint(cmds, cp)
+                if n > len(data):
+                    raise Bad()
+                bs, data = data[:n], data[n:]
+                out += bs if c == 1 else shuffle(bs, 2 if c == 2 else 4)
+            elif c == 4:
+                if cp >= len(cmds):
+                    raise Bad()
+                fl = cmds[cp]
+                cp += 1
+                width, order = (fl & 3) + 1, (fl >> 2) & 3
+                if width == 3 or order == 3:
+                    raise Bad()
+                stride = width
+                if fl & 16:
+                    stride, cp = varint(cmds, cp)
+                    if stride < width:
+                        raise Bad()
+                if stride * 4 >= len(out):
+                    raise Bad()
+                n, cp = varint(cmds, cp)
+                if len(data) < n:
+                    raise Bad()
+                bs, data = data[:n], data[n:]
+                if width > 1:
+                    bs = shuffle(bs, width)
+                for i in range(0, n, width):
+                    prev = []
+                    for j in range(order + 1):
+                        o = len(out) - stride * (j + 1)
+                        x = 0
+                        for q in out[o:o + width]:
+                            x = (x << 8) | q
+                        prev.append(x)
+                    p = prev[0] if order == 0 else (2 * prev[0] - prev[1]) if order == 1 else (3 * (prev[0] - prev[1]) + prev[2])
+                    p &= 0xffffffff
+                    for j in range(min(width, n - i)):
+                        out.append((bs[i + j] + (p >> (8 * (width - 1 - j)))) & 255)
+            elif c == 10:
+                if len(data) < 12:
+                    raise Bad()
+                out += list(b"XYZ ") + [0, 0, 0, 0] + data[:12]
+                data = data[12:]
+            elif 16 <= c <= 23:
+                out += list(DATA[c - 16]) + [0, 0, 0, 0]
+            else:
+                raise Bad()
+        if check_size and len(out) != osize:
+            raise Bad()
+        return ("ok", out)
+    except Bad:
+        return ("err",)
+
+
+def _icc_scripts():
+    """(name, stream) pairs: each command of the ICC stream at least once, each rejection once"""
+    def vi(v):
+        o = []
+        while True:
+            b = v & 0x7f
+            v >>= 7
+            if v:
+                o.append(b | 0x80)
+            else:
+                o.append(b)
+                return o
+
+    def hdr(seed, b40=0, b41=0):
+        h = [((i * 29 + seed * 13) ^ (i >> 1)) & 255 for i in range(128)]
+        h[40], h[41] = b40, b41
+        return h
+
+    def mk(cmds, data, osize=None, seed=1, b40=0, b41=0, header=True):
+        full = (hdr(seed, b40, b41) if header else []) + list(data)
+        if osize is None:
+            # the output length does not depend on the declared size: take it from the reference run with a size that cannot be hit
+            probe = vi(1 << 27) + vi(len(cmds)) + list(cmds) + full
+            osize = _icc_len(probe)
+        return vi(osize) + vi(len(cmds)) + list(cmds) + full
+
+    dat = lambda n, s=5: [((i * 17 + s * 7) ^ (i >> 2)) & 255 for i in range(n)]
+    S = []
+    S.append(("header only, 5 bytes", vi(5) + vi(0) + [9, 8, 7, 6, 5]))
+    S.append(("empty profile", vi(0) + vi(0)))
+    S.append(("header only, 128 bytes, APPL", vi(128) + vi(0) + hdr(2, ord("A"))))
+    S.append(("header short of data", vi(100) + vi(0) + [1] * 60))
+    S.append(("commands_size beyond the stream", vi(200) + vi(9) + [0] * 4))
+    S.append(("no tag list, raw copy", mk(vi(0) + [1] + vi(40), dat(40))))
+    S.append(("no tag list, raw copy, size mismatch", mk(vi(0) + [1] + vi(40), dat(40), osize=169)))
+    S.append(("raw copy longer than the data", mk(vi(0) + [1] + vi(50), dat(40), osize=178)))
+    S.append(("shuffle2 9 bytes, shuffle4 16 bytes", mk(vi(0) + [2] + vi(9) + [3] + vi(16), dat(25))))
+    S.append(("shuffle4 7 bytes", mk(vi(0) + [3] + vi(7), dat(7, 3))))
+    S.append(("XYZ command and the eight type commands", mk(vi(0) + [10] + list(range(16, 24)), dat(12))))
+    S.append(("XYZ command short of data", mk(vi(0) + [10], dat(11), osize=148)))
+    for c in (0, 5, 9, 11, 15, 24, 255):
+        S.append(("invalid main command %d" % c, mk(vi(0) + [c], dat(4), osize=132)))
+    # tag list
+    S.append(("tag list: unknown tag, offset + size flags; rTRC triple; rXYZ triple; implicit offsets",
+              mk(vi(1 + 9) + [1 | 64 | 128] + vi(240) + vi(32) + [2] + [3] + [5 | 128] + vi(12) + [4] + [0] + [1] + vi(200), list(b"abcd") + dat(200))))
+    S.append(("tag list: rXYZ triple with explicit offset, then an implicit offset",
+              mk(vi(1 + 4) + [3 | 64] + vi(400) + [14] + [0] + [1] + vi(300), dat(300, 4))))
+    S.append(("tag list: every common tag code", mk(vi(1 + 23) + [2 | 64 | 128] + vi(500) + vi(16) + list(range(3, 21)) + [0] + [1] + vi(600), dat(600, 2))))
+    S.append(("tag list: common tags with explicit sizes and implicit 20",
+              mk(vi(1 + 6) + [16 | 128] + vi(44) + [8] + [20] + [14 | 128] + vi(3) + [12, 13, 0] + [1] + vi(100), dat(100))))
+    S.append(("tag list ends with the command stream (consistent length)", mk(vi(1 + 1) + [6 | 64] + vi(120), [])))
+    S.append(("as many tags as the profile can hold", mk(vi(1 + 14) + [0] + [1] + vi(168), dat(168), osize=300)))
+    S.append(("tag list ends with the command stream (declared length not reached)", mk(vi(1 + 2) + [6 | 64] + vi(144), [], osize=400)))
+    S.append(("tag count only, command stream ends", mk(vi(1 + 2), [], osize=300)))
+    S.append(("tag code 21", mk(vi(1 + 1) + [21], [], osize=300)))
+    S.append(("tag code 63", mk(vi(1 + 1) + [63 | 64] + vi(1), [], osize=300)))
+    S.append(("unknown tag short of data", mk(vi(1 + 1) + [1], [1, 2, 3], osize=300)))
+    S.append(("tag beyond the profile", mk(vi(1 + 1) + [2 | 64 | 128] + vi(290) + vi(11), [], osize=300)))
+    S.append(("tag exactly at the end of the profile", mk(vi(1 + 1) + [2 | 64 | 128] + vi(290) + vi(10) + [0] + [1] + vi(132), dat(132), osize=300)))
+    S.append(("too many tags for the profile", mk(vi(1 + 15), [], osize=300)))
+    S.append(("zero tags", mk(vi(1) + [0] + [1] + vi(6), dat(6))))
+    # predicted runs
+    for width in (1, 2, 4):
+        for order in (0, 1, 2):
+            fl = (width - 1) | (order << 2)
+            S.append(("predict width %d order %d" % (width, order), mk(vi(0) + [1] + vi(24) + [4, fl] + vi(4 * width + 3), dat(24, order + 1) + dat(4 * width + 3, 9), seed=width + order)))
+    S.append(("predict width 2 order 1 stride 6", mk(vi(0) + [1] + vi(30) + [4, 1 | (1 << 2) | 16] + vi(6) + vi(12), dat(30, 2) + dat(12, 4))))
+    S.append(("predict width 4 order 2 stride 12", mk(vi(0) + [1] + vi(40) + [4, 3 | (2 << 2) | 16] + vi(12) + vi(21), dat(40, 6) + dat(21, 8))))
+    S.append(("predict width 1 order 0 stride 3, twice", mk(vi(0) + [1] + vi(8) + [4, 16] + vi(3) + vi(7) + [4, 16 | 4] + vi(2) + vi(5), dat(8) + dat(7, 2) + dat(5, 3))))
+    S.append(("predict width 3", mk(vi(0) + [4, 2] + vi(4), dat(4), osize=132)))
+    S.append(("predict order 3", mk(vi(0) + [4, 12] + vi(4), dat(4), osize=132)))
+    S.append(("predict stride below width", mk(vi(0) + [4, 3 | 16] + vi(3) + vi(4), dat(4), osize=132)))
+    S.append(("predict stride * 4 == output so far", mk(vi(0) + [4, 16] + vi(32) + vi(4), dat(4), osize=132)))
+    S.append(("predict stride * 4 just below output so far", mk(vi(0) + [4, 16] + vi(31) + vi(4), dat(4), osize=132)))
+    S.append(("predict short of data", mk(vi(0) + [4, 0] + vi(9), dat(8), osize=137)))
+    S.append(("predict flags missing", mk(vi(0) + [4], [], osize=132)))
+    return S
+
+
+def _icc_len(stream):
+    """length the reference produces when the declared size is not compared (for building self-consistent scripts)"""
+    r = _icc_reference(stream, check_size=False)
+    return len(r[1]) if r[0] == "ok" else 0
+
+
+def rule_interp_eval(ctx):
+    """decode_icc, evaluated from MIR on scripted command streams, equals the reference interpreter"""
+    from .. import absint
+    rid = "R-ICC-INTERP"
+    S = _icc_scripts()
+    REJECTED = ("header short of data", "commands_size beyond", "size mismatch", "longer than the data", "short of data", "invalid main command",
+                "declared length not reached", "tag count only", "tag code 21", "tag code 63", "tag beyond the profile", "too many tags",
+                "predict width 3", "predict order 3", "stride below width", "stride * 4 == output", "flags missing")
+    for name, stream in S:
+        if (_icc_reference(stream)[0] == "err") != any(q in name for q in REJECTED):
+            ctx.anchor_missing(rid, "self-check: the reference interpreter's verdict on script `%s` is not the intended one" % name)
+            return
+    ctx.rule(rid, "jxl_color::icc::decode::decode_icc is evaluated from MIR (nothing is run: the evaluator interprets the function, its "
+                  "helpers varint / predict_header / shuffle2 / shuffle4, std::io::Cursor reads, Vec growth, Wrapping<u32> arithmetic "
+                  "and slice operations over concrete bytes) on %d scripted ICC streams and compared with an interpreter written from "
+                  "ISO/IEC 18181-1 (ICC annex): every main-section command (raw copy, 2- / 4-way shuffle, predicted runs of width "
+                  "1 / 2 / 4 x order 0 / 1 / 2 with default and explicit stride, the XYZ and the eight type shortcuts), every tag-list "
+                  "shortcut (unknown tag, the 19 common tags, the rTRC and rXYZ triples, explicit and implicit offsets and sizes), "
+                  "and every rejection (sizes, codes, parameters, available data, final length).  The outcome must be the same "
+                  "byte string, or an error where the reference rejects.  This decides the index arithmetic of each command on those "
+                  "scripts, not byte-exactness for every stream" % len(S))
+    col = ctx.prog.crate("jxl_color")
+    f = col.fn("jxl_color::icc::decode::decode_icc")
+    if f is None or f.argc != 1 or "[u8]" not in str(f.local_ty(1)):
+        ctx.anchor_missing(rid, "jxl_color::icc::decode::decode_icc(&[u8])")
+        return
+    ctx.seen(f)
+    rows, bad, undec = 0, [], None
+    for name, stream in S:
+        want = _icc_reference(stream)
+        ev = absint.Evaluator(ctx.prog)
+        ev.max_steps = 4_000_000
+        try:
+            r = ev.call_fn(f, [absint.BufView(list(stream))])
+        except absint.Unsupported as e:
+            undec = "script `%s`: %s" % (name, e)
+            break
+        rows += 1
+        got = None
+        if isinstance(r, absint.Enum) and r.name == "Err":
+            got = ("err",)
+        elif isinstance(r, absint.Enum) and r.name == "Ok":
+            v = r.fields[0]
+            v = v.items() if isinstance(v, absint.BufView) else v
+            if isinstance(v, (list, tuple)) and all(isinstance(q, int) for q in v):
+                got = ("ok", list(v))
+        if got is None:
+            undec = "script `%s`: result %r" % (name, r)
+            break
+        if got != want:
+            bad.append((name, got, want))
+    ctx.count(rid + ".scripts", rows)
+    if undec:
+        ctx.bad(rid, "decode_icc|not-evaluable", "decode_icc is no longer a function the evaluator can decide (%s); the ICC interpreter cannot be "
+                "compared with the format" % undec, fn=f)
+        return
+    ctx.floor(rid + ".scripts", 53)
+    if not bad:
+        ctx.ok(rid, "decode_icc|scripts", "%d scripted streams: same bytes, or an error where the format rejects" % rows, nontrivial=True, fn=f)
+    for name, got, want in bad[:4]:
+        if got[0] != want[0]:
+            what = "is accepted (%d bytes), the format rejects it" % len(got[1]) if got[0] == "ok" else "is rejected, the format decodes it to %d bytes" % len(want[1])
+        elif len(got[1]) != len(want[1]):
+            what = "decodes to %d bytes, the format gives %d" % (len(got[1]), len(want[1]))
+        else:
+            k = next(i for i in range(len(got[1])) if got[1][i] != want[1][i])
+            what = "byte %d of the profile is %d, the format gives %d" % (k, got[1][k], want[1][k])
+        ctx.bad(rid, "decode_icc|script:" + name, "ICC stream `%s`: %s (%d of %d scripts differ)" % (name, what, len(bad), rows), fn=f)
+
+
+def rule_shuffle_eval(ctx):
+    """shuffle2 / shuffle4, evaluated from MIR on byte strings of every small length, are the format's transpositions"""
+    from .. import absint
+    rid = "R-ICC-SHUFFLE"
+    ctx.rule(rid, "the 2- and 4-way shuffle commands of the ICC stream (ISO/IEC 18181-1 ICC main-section commands 2 / 3 and the shuffled "
+                  "predicted runs) read their input as `width` rows and emit it column by column.  jxl_color::icc::decode::shuffle2 and "
+                  "shuffle4 are evaluated from MIR (nothing is run) on strings of distinct bytes of every length 0..=17 (and 64, 65): "
+                  "the result must be a permutation of the input for every length, and must equal the column-major read-out for "
+                  "shuffle2 at every length and for shuffle4 at the lengths where all rows are full or only the last row is one "
+                  "short (length mod 4 in {0, 3}; for the other lengths the row split follows the implementation and only the "
+                  "permutation clause is decided).  Seed C18g (second column of an odd-length shuffle2 starts one byte early)")
+    col = ctx.prog.crate("jxl_color")
+    rows = 0
+    for name, width in (("shuffle2", 2), ("shuffle4", 4)):
+        f = col.fn("jxl_color::icc::decode::" + name)
+        if f is None or f.argc != 1 or "[u8]" not in str(f.local_ty(1)):
+            ctx.anchor_missing(rid, "jxl_color::icc::decode::%s(&[u8])" % name)
+            continue
+        ctx.seen(f)
+        bad = undec = None
+        n_ok = 0
+        for n in list(range(0, 18)) + [64, 65]:
+            data = [(i * 7 + 3) & 255 for i in range(n)]
+            ev = absint.Evaluator(ctx.prog)
+            try:
+                r = ev.call_fn(f, [absint.BufView(list(data))])
+            except absint.Unsupported as e:
+                undec = "length %d: %s" % (n, e)
+                break
+            got = r.items() if isinstance(r, absint.BufView) else (list(r) if isinstance(r, (tuple, list)) else None)
+            if got is None or not all(isinstance(q, int) for q in got):
+                undec = "length %d: result %r is not a byte vector" % (n, r)
+                break
+            rows += 1
+            n_ok += 1
+            height = -(-n // width)
+            full = n - (height - 1) * width if n else 0        # rows that have `height` entries (balanced split)
+            want = None
+            if width == 2 or n % width in (0, width - 1):
+                starts, o = [], 0
+                for rr in range(width):
+                    ln = height if rr < full else height - 1
+                    starts.append((o, ln))
+                    o += ln
+                want = [data[o + c_] for c_ in range(height) for o, ln in starts if c_ < ln]
+            if sorted(got) != sorted(data):
+                bad = bad or (n, "is not a permutation of its input (got %s)" % got[:12])
+            elif want is not None and got != want:
+                k = next(i for i in range(n) if got[i] != want[i])
+                bad = bad or (n, "output byte %d is input byte %d, the format's transposition takes input byte %d" % (k, data.index(got[k]), data.index(want[k])))
+        if undec:
+            ctx.bad(rid, name + "|not-evaluable", "%s is no longer a function the evaluator can decide (%s); its permutation cannot be compared with "
+                    "the format" % (name, undec), fn=f)
+        elif bad:
+            ctx.bad(rid, name + "|permutation", "%s on %d bytes: %s: profiles using this command are not returned byte-exactly" % (name, bad[0], bad[1]), fn=f)
+        else:
+            ctx.ok(rid, name + "|permutation", "%d lengths: a permutation everywhere, equal to the column-major read-out of %d rows where the format "
+                   "fixes it" % (n_ok, width), nontrivial=True, fn=f)
+    ctx.count(rid + ".rows", rows)
+    ctx.floor(rid + ".rows", 40)
+
+
 def main(pid, tier, repo=None):
     ctx = Ctx(pid, tier, configs=("workspace",), repo=repo)
     rid = "R-ICC-REJECT"
@@ -486,6 +873,8 @@ def main(pid, tier, repo=None):
     rule_tagsize(ctx)
     rule_predshift(ctx)
     rule_headerpred(ctx)
+    rule_shuffle_eval(ctx)
+    rule_interp_eval(ctx)
     # no unwrap/expect/index panic on the error path: decode_icc returns Result and converts slice errors
     ctx.not_decided("byte equality of the decoded profile with the embedded one for every encoding (value-level round trip); the predictor "
                     "arithmetic and the shuffle permutations")
